@@ -60,6 +60,7 @@ def build_streams(rng, tier):
         Stream("exhaustive-small", exhaustive_small_lines(), h, **kw),
         Stream("structured+random", lines, h, **kw),
         history_stream("C01", rng, tier),
+        assembled_stream(lines[:600 if tier == "thorough" else 150], **kw),
     ] + N.extra_streams(rng, tier) + S.extra_streams(rng, tier)
 
 RULE = ("collections from the structured generator (random dense/sparse, canonical stars by census realised as Pauli strings, "
@@ -77,6 +78,9 @@ def main(tier):
 
 def replay(path):
     r = json.load(open(path)); line = r.get("line")
+    sp = replay_special(PID, line, batch_oracle)
+    if sp is not None:
+        return sp
     out = impl_classify.handle(line); why = batch_oracle([line], [out])[0]
     if str(r.get("stream", "")).startswith("closed-form:"):
         why = why or S.batch_oracle([line], [out])[0]
